@@ -50,6 +50,7 @@ Ltac inv_ok H :=
     | server_alert _ = Ok _ => discriminate H
     | client_crash = Ok _ => discriminate H
     | server_crash = Ok _ => discriminate H
+    | crash_or ?f _ _ = Ok _ => unfold crash_or in H; destruct f; discriminate H
     end).
 
 (* ---- what "allowed by these settings" means ------------------------------ *)
@@ -194,6 +195,7 @@ Lemma server_select_suite_in s ch v suites suite sig :
   server_select_suite s ch v suites = Ok (suite, sig) -> In suite suites /\ In suite (ch_suites ch).
 Proof.
   unfold server_select_suite. intros H.
+  destruct (fix_eddsa_server && (v <? 3) && _); [discriminate H|].
   destruct (first_matching _ (ch_suites ch)) as [x|] eqn:E.
   2:{ destruct (_ && _); discriminate H. }
   apply first_matching_some in E. destruct E as [A B].
@@ -349,20 +351,20 @@ Proof.
   split; [repeat split|]. split.
   { destruct (fl_rsl fl), (st_rsl (cl_set c)); cbn [fst snd]; split; reflexivity. }
   split.
-  { intros K g Hg. rewrite K in E1. cbn [Z.eqb Pos.eqb] in E1. rewrite Hg in E1.
-    destruct (memZ g (curves_to_list (cl_set c) 4)) eqn:M; [|discriminate E1].
+  { intros K g Hg. rewrite K in E4. cbn [Z.eqb Pos.eqb] in E4. rewrite Hg in E4.
+    destruct (memZ g (curves_to_list (cl_set c) 4)) eqn:M; [|discriminate E4].
     apply memZ_In in M. eapply in_curves_to_list. exact M. }
   split.
-  { intros A. rewrite A in E. destruct (fl_cert fl) as [sc|]; [|discriminate E].
+  { intros A. rewrite A in E0. destruct (fl_cert fl) as [sc|]; [|discriminate E0].
     exists sc. split; [reflexivity|].
-    destruct (check_chain 1000 (cl_set c) (fl_version fl) sc) as [[]|] eqn:CC; [|discriminate E].
-    split; [reflexivity|]. cbn [bind] in E. intros sg Hsg. rewrite Hsg in E.
-    destruct (memZ sg _) eqn:M; [apply memZ_In; exact M|discriminate E]. }
+    destruct (check_chain 1000 (cl_set c) (fl_version fl) sc) as [[]|] eqn:CC; [|discriminate E0].
+    split; [reflexivity|]. cbn [bind] in E0. intros sg Hsg. rewrite Hsg in E0.
+    destruct (memZ sg _) eqn:M; [apply memZ_In; exact M|discriminate E0]. }
   split; [reflexivity|]. split; [reflexivity|]. split; [reflexivity|]. split.
   { intros sg Hsg. destruct (_ && _) in Hsg; [exact Hsg|]. destruct (_ && _) in Hsg; [exact Hsg|discriminate Hsg]. }
-  intros K b Hb. rewrite K in E1. cbn [Z.eqb Pos.eqb] in E1. rewrite Hb in E1.
-  destruct (b <? st_min_key (cl_set c)) eqn:L1; [discriminate E1|].
-  destruct (st_max_key (cl_set c) <? b) eqn:L2; [discriminate E1|].
+  intros K b Hb. rewrite K in E4. cbn [Z.eqb Pos.eqb] in E4. rewrite Hb in E4.
+  destruct (b <? st_min_key (cl_set c)) eqn:L1; [discriminate E4|].
+  destruct (st_max_key (cl_set c) <? b) eqn:L2; [discriminate E4|].
   apply Z.ltb_ge in L1. apply Z.ltb_ge in L2. lia.
 Qed.
 
@@ -804,6 +806,7 @@ Lemma server_select_suite_sig s ch v suites suite sg :
   exists l, ch_sigalgs ch = Some l /\ In sg l /\ In sg (sig_hashes_to_list (sv_set s) false (sv_cert s) v).
 Proof.
   unfold server_select_suite. intros H.
+  destruct (fix_eddsa_server && (v <? 3) && _); [discriminate H|].
   destruct (first_matching _ (ch_suites ch)); [|destruct (_ && _); discriminate H].
   destruct (if (3 <? v) && _ then Ok None else pick_ske_sig (sv_set s) (ch_sigalgs ch) (sv_cert s) v) as [sig|] eqn:P;
     [|discriminate H].
@@ -895,4 +898,64 @@ Lemma exporter_same p1 p2 p3 cv sv label len :
   views_agree_core cv sv -> exporter p1 p2 p3 cv label len = exporter p1 p2 p3 sv label len.
 Proof.
   intros [V [_ [_ [_ [_ [_ [_ [_ [_ S]]]]]]]]]. unfold exporter. rewrite V, S. reflexivity.
+Qed.
+
+(* ---- what the proposed repairs buy (conditional on the flags regenerated from the tree) ------ *)
+Lemma client_legacy_dh_size c ch fl r b : client_legacy c ch fl = Ok r -> fix_dh_size = true ->
+  kex_of (fl_suite fl) = 1 -> fl_dh_bits fl = Some b ->
+  st_min_key (cl_set c) <= b <= st_max_key (cl_set c).
+Proof.
+  intros H F K Hb. unfold client_legacy in H. inv_ok H.
+  rewrite F, K, Hb in E1. cbn [Z.eqb Pos.eqb andb] in E1.
+  destruct (b <? st_min_key (cl_set c)) eqn:L1; [discriminate E1|].
+  destruct (st_max_key (cl_set c) <? b) eqn:L2; [discriminate E1|].
+  apply Z.ltb_ge in L1. apply Z.ltb_ge in L2. lia.
+Qed.
+
+Lemma server_tls13_no_dh s ch v suite scheme grp alpn fl sv :
+  server_tls13 s ch v suite scheme grp alpn = Ok (fl, sv) -> fl_dh_bits fl = None.
+Proof.
+  intros H. unfold server_tls13 in H.
+  match type of H with bind ?m _ = _ => destruct m; [|discriminate H] end.
+  cbn [bind] in H. injection H as <- _. reflexivity.
+Qed.
+
+Lemma dh_size_within_client_repaired c s o b : negotiate c s = Ok o -> fix_dh_size = true ->
+  kex_of (fl_suite (oc_flight o)) = 1 -> fl_dh_bits (oc_flight o) = Some b ->
+  st_min_key (cl_set c) <= b <= st_max_key (cl_set c).
+Proof.
+  intros H. apply negotiate_run in H. destruct H as
+    [ch v suite sig grp fl sv0 cv ccert cvalg npn sv H0 H1 Hv H2 H3 H4 H5 ->
+    |ch v suite sig grp fl0 sv00 alpn fl sv0 cv ccert cvalg sv H0 H1 Hv H2 H3 H4 H5 H6 H7 ->];
+  cbn [oc_flight]; intros F K Hb.
+  - exact (client_legacy_dh_size _ _ _ _ _ H4 F K Hb).
+  - rewrite (server_tls13_no_dh _ _ _ _ _ _ _ _ _ H5) in Hb. discriminate Hb.
+Qed.
+
+Lemma server_tls13_finish_key s fl sv0 ccert cv sv id : server_tls13_finish s fl sv0 ccert cv = Ok sv ->
+  fix_tls13_client_key = true -> vw_client_chain sv = Some id ->
+  exists mc, ccert = Some mc /\ ct_id mc = id /\ check_chain 2000 (sv_set s) (fl_version fl) mc = Ok tt.
+Proof.
+  intros H F. unfold server_tls13_finish in H. inv_ok H. injection H as <-. cbn [vw_client_chain].
+  intros ->. destruct (fl_cert_req fl), ccert as [cc|]; try (injection E as E; discriminate E).
+  rewrite F in E. inv_ok E. injection E as <-. exists cc. split; [reflexivity|]. split; [reflexivity|].
+  match goal with U : check_chain 2000 _ _ cc = Ok ?u |- _ => destruct u; exact U end.
+Qed.
+
+Lemma client_key_size_within_server_repaired c s o id : negotiate c s = Ok o ->
+  fix_tls13_client_key = true -> vw_client_chain (oc_server o) = Some id ->
+  exists mc, oc_client_cert o = Some mc /\ ct_id mc = id /\
+             (sized_key mc -> st_min_key (sv_set s) <= ct_bits mc <= st_max_key (sv_set s)).
+Proof.
+  intros H F Hc.
+  destruct (Z_le_gt_dec (vw_version (oc_server o)) 3) as [L|L].
+  - exact (client_key_size_within_server c s o id H L Hc).
+  - apply negotiate_run in H. destruct H as
+      [ch v suite sig grp fl sv0 cv ccert cvalg npn sv H0 H1 Hv H2 H3 H4 H5 ->
+      |ch v suite sig grp fl0 sv00 alpn fl sv0 cv ccert cvalg sv H0 H1 Hv H2 H3 H4 H5 H6 H7 ->];
+    cbn [oc_server oc_client_cert] in *.
+    + destruct (server_legacy_facts _ _ _ _ _ _ H2) as [_ [[S1 _] _]].
+      destruct (server_legacy_finish_facts _ _ _ _ _ _ _ H5) as [[T1 _] _]. rewrite T1, S1 in L. lia.
+    + destruct (server_tls13_finish_key _ _ _ _ _ _ _ H7 F Hc) as [mc [A [B C]]].
+      exists mc. split; [exact A|]. split; [exact B|]. intros K. exact (check_chain_key_size _ _ _ _ C K).
 Qed.
